@@ -11,10 +11,11 @@ from vf.core import Ctx, require, sut
 
 META = {
     "rule": "matrices are built by construction (zero diagonal, >= 1 positive "
-            "entry per row) from 9 value classes (0/1, <127, mixed magnitude "
+            "entry per row) from 10 value classes (0/1, <127, mixed magnitude "
             "palettes, constant, 'edge' classes whose derived upper bound "
             "lies within +-3 of 127 / 32767 / 2^31-1, up to 10^12, all row "
-            "maxima = 10^12) x {symmetric, asymmetric, symmetric except one "
+            "maxima = 10^12, 'huge' = up to (10^15-1)/n, the constructor's "
+            "limit for the sum of the row maxima) x {symmetric, asymmetric, symmetric except one "
             "ordered pair} x 8 input dtypes x 1-2 drawn permutations (tour "
             "dtype of the permutation space or int64) x lower-bound argument "
             "{0 = derived, below the derived bound, between derived bound and "
